@@ -2,7 +2,7 @@
 (* Exhaustive exploration of Dag for a batch of DAGs (JSON file named by the environment variable DAGS): every order of *)
 (* the assignment calls, explicit start() calls, completions and clock ticks; for the DAGs flagged "dyn" the            *)
 (* add_successor calls are interleaved as well (otherwise the whole graph is declared first).                           *)
-(* A DAG is [n, kind: sequence of "exec"|"comm"|"io", edges: sequence of <<a, b>> with a < b, dyn: BOOLEAN].            *)
+(* A DAG is [n, kind: sequence of "exec"|"comm"|"io", edges: sequence of <<a, b>> with a < b, dyn, reqinit: BOOLEAN]. *)
 EXTENDS Dag, Sequences, Json, IOUtils, TLC
 
 CONSTANTS MaxT,     \* dates range over 0..MaxT
@@ -19,10 +19,18 @@ RECURSIVE AddAll(_, _)
 AddAll(st, es) == IF es = {} THEN st
                   ELSE LET e == CHOOSE x \in es : TRUE IN AddAll(AddSucc(st, e[1], e[2]), es \ {e})
 
+RECURSIVE RequestAll(_, _)
+RequestAll(st, as) == IF as = {} THEN st
+                      ELSE LET a == CHOOSE x \in as : TRUE IN RequestAll(Request(st, a, 0), as \ {a})
+
+\* g.reqinit: every activity gets its explicit start() at date 0, right after the graph is declared (what the DAX
+\* loader does); only the assignment calls, the completions and the clock are interleaved then
 Init == /\ d \in 1..Len(Dags)
         /\ LET g == Dags[d]  s0 == S0(g.n, g.kind) IN
-             IF g.dyn THEN s = s0 /\ pend = EdgeSet(g) ELSE s = AddAll(s0, EdgeSet(g)) /\ pend = {}
-        /\ now = 0 /\ nreq = [a \in 1..Dags[d].n |-> 0]
+             IF g.dyn THEN s = s0 /\ pend = EdgeSet(g)
+             ELSE /\ pend = {}
+                  /\ s = IF g.reqinit THEN RequestAll(AddAll(s0, EdgeSet(g)), 1..g.n) ELSE AddAll(s0, EdgeSet(g))
+        /\ now = 0 /\ nreq = [a \in 1..Dags[d].n |-> IF Dags[d].reqinit THEN MaxReq ELSE 0]
 
 MAddSucc(e) == /\ e \in pend /\ CanAddSucc(s, e[1], e[2])
                /\ s' = AddSucc(s, e[1], e[2]) /\ pend' = pend \ {e} /\ UNCHANGED <<d, now, nreq>>
@@ -40,6 +48,16 @@ Next == \/ \E e \in pend : MAddSucc(e)
         \/ \E a \in Acts(s) : MFinish(a)
         \/ Tick
 Spec == Init /\ [][Next]_vars
+
+\* VIEW: dates that no property will read again are forgotten (assignment / request dates of a begun activity, start
+\* date of a finished one, finish date once every successor has begun; veto counters).  Sound because the properties
+\* that read them are established at the step that begins the activity and Monotone says they never change afterwards.
+View == <<d, now, pend, nreq,
+          [s EXCEPT !.asgd   = [a \in Acts(s) |-> IF Begun(s, a) THEN Never ELSE s.asgd[a]],
+                    !.ereq   = [a \in Acts(s) |-> IF Begun(s, a) THEN Never ELSE s.ereq[a]],
+                    !.startd = [a \in Acts(s) |-> IF s.st[a] = "finished" THEN Never ELSE s.startd[a]],
+                    !.find   = [a \in Acts(s) |-> IF \A b \in s.succ[a] : Begun(s, b) THEN Never ELSE s.find[a]],
+                    !.nveto  = [a \in Acts(s) |-> 0]]>>
 
 Inv == DagInv(s)
 \* every activity finishes once the environment has done its part (edges that can no longer be declared do not count)
